@@ -71,6 +71,10 @@ def build_cases(tier):
                lambda inp: ok([('i', ['5', '12'])])))
     C.append(T('other_goroutine_result', [Y], V + 'c := make(chan int, 1)\ngo func() {\n\tVerifYield()\n\tc <- a + b\n}()\nVerifYield()\nprintln("g", <-c)',
                lambda inp: ok([('g', ['(+ in_0 in_1)'])])))
+    # an earlier argument that is a compound of a suspending call and a later plain call keeps its place in the evaluation order
+    C.append(T('args_compound_order', [Y, 'var cnt int\n//go:noinline\nfunc stamp() int { cnt++; return cnt * 1000 }\n//go:noinline\nfunc yc(v int) int { VerifYield(); cnt += 10; return v }\n//go:noinline\nfunc two(x, y int) int { return x*7 + y }\ntype bx struct{ p, q int }\n//go:noinline\nfunc viaBox(b bx, y int) int { return b.p*100000 + b.q + y }\n'],
+               V + 'r1 := two(yc(1)+stamp(), yc(2))\ncnt = 0\nr2 := viaBox(bx{yc(1), stamp()}, yc(3))\nprintln("r", r1, r2)',
+               lambda inp: ok([('r', ['(+ (* 7 11001) 2)', '(+ 100000 11000 3)'])])))
     # leads reported by a sub-agent while reading the unchanged compiler
     C.append(T('ptr_method_on_named_nonstruct_local', [Y, 'type ctr int\nfunc (c *ctr) inc() { *c++ }\n'], V + 'var x ctr\nx.inc()\nVerifYield()\nx.inc()\np := &x\nVerifYield()\np.inc()\nprintln("x", int(x))',
                lambda inp: ok([('x', ['3'])])))
